@@ -18,10 +18,17 @@
                              its PModel link (finding C03-first-load-replaces-root): TreeFacts fails, so the one-step theorems of
                              Properties/C04.v / C05.v do not apply to the loaded world and the load is the last step here.
    [F] C45_load_demo         tiny tables: new, load, get_element_by_path, set_item_name; both maps exact before and after
-                             (boolean checkers). *)
+                             (boolean checkers).
+   [U] C45_history2_real / C45_load_first_real / C45_history2_then_load_real   the same three statements on the GENERATED tables
+                             RT with the regex model of the character checks, histories starting in the EMPTY world: no table
+                             hypothesis is left (TablesOK, plain root type, MaskOk, tables_ok, sn_charsb, ref_charsb, reference
+                             types hold character data are [F] theorems about RT: Tree/IndexProofsOp2Real.v) and no invariant
+                             of the start world (Inv04_empty, Inv05_empty, empty_RX).  What stays: the decidable classes in
+                             steps_ok2a / Pending45_4, agent-c03's RealInvL before the load, DocSide of the loaded world. *)
 From AV Require Import Base.Bytes Base.Outcome Hash.HashModel Spec.SpecOps Tree.Heap Tree.Ops Tree.Script Tree.Script2 Tree.Load Tree.MergeSpec
   Tree.Inv Tree.Index Tree.Refs Tree.RefsAll Tree.IndexProofsNodeInv Tree.SortProofsNames Tree.IndexProofsOp2 Tree.FollowL Tree.InvLoad
-  Tree.InvProofsLoadLive Tree.FollowProofsLoadMain Tree.IndexProofsLoad Tree.IndexProofsOp2Load Tree.FollowWitnessLoad Tree.IndexProofsTinyLoad.
+  Tree.InvProofsLoadLive Tree.FollowProofsLoadMain Tree.IndexProofsLoad Tree.IndexProofsOp2Load Tree.FollowWitnessLoad Tree.IndexProofsTinyLoad
+  Tree.CheckFn Spec.SpecReal Tree.IndexProofsOp2Real.
 From AV Require Xml.Parser Xml.TablesOk Xml.LoadRecordsRegular.
 Import Tiny.
 Open Scope list_scope.
@@ -90,3 +97,43 @@ Example C45_load_demo :
     Index.Tiny.origins_list w2 0 = [(BS "/q/S", [13])] /\ ref_text tiny w2 13 = Some (BS "/q/S") /\
     index_ok tiny w2 = true /\ refs_ok tiny w2 = true.
 Proof. exact load_demo_summary. Qed.
+
+Theorem C45_history2_real :
+  forall (dfas : N -> option (list (list N) * list N)) (tab_el tab_at tab_en : nametab)
+         (float_parse : list N -> option N) (float_fmt : N -> list N)
+         (LATEST name_index name_definition_ref attr_schema_location : N) (root_attrs : list (N * cdata))
+         (l : list op2) (w : world),
+  steps_ok2a RT tab_el tab_at tab_en (check_fn_model dfas) float_parse float_fmt LATEST name_index name_definition_ref
+             attr_schema_location root_attrs l empty_world ->
+  run_hist2 RT tab_el tab_at tab_en (check_fn_model dfas) float_parse float_fmt LATEST name_index name_definition_ref
+            attr_schema_location root_attrs l empty_world = Val w ->
+  Inv04 RT (check_fn_model dfas) w /\ Inv05 RT w /\ RX RT w.
+Proof. exact IndexProofsOp2Real.C45_history2_rt. Qed.
+
+Theorem C45_load_first_real :
+  forall (dfas : N -> option (list (list N) * list N)) (tab_el tab_at tab_en : nametab)
+         (float_parse : list N -> option N) (LATEST name_definition_ref : N)
+         (buffer filename : list N) (strict : bool) (w : world) (x : model) (f : N) (ws : list Parser.perror) (w' : world),
+  RealInvL RT w -> w_models w = [x] -> m_files x = [] -> m_idents x = [] -> m_origins x = [] ->
+  m_load_buffer RT tab_el tab_at tab_en (check_fn_model dfas) float_parse LATEST name_definition_ref 0 buffer filename strict w
+    = Val (OK (f, ws), w') ->
+  DocSide RT (check_fn_model dfas) w' ->
+  TreeFactsL w' /\ Inv04 RT (check_fn_model dfas) w' /\ Inv05S RT w'.
+Proof. exact IndexProofsOp2Real.C45_load_first_rt. Qed.
+
+Theorem C45_history2_then_load_real :
+  forall (dfas : N -> option (list (list N) * list N)) (tab_el tab_at tab_en : nametab)
+         (float_parse : list N -> option N) (float_fmt : N -> list N)
+         (LATEST name_index name_definition_ref attr_schema_location : N) (root_attrs : list (N * cdata))
+         (l : list op2) (w : world) (m : N) (buffer filename : list N) (strict : bool) (f : N) (ws : list Parser.perror) (w' : world),
+  steps_ok2a RT tab_el tab_at tab_en (check_fn_model dfas) float_parse float_fmt LATEST name_index name_definition_ref
+             attr_schema_location root_attrs l empty_world ->
+  run_hist2 RT tab_el tab_at tab_en (check_fn_model dfas) float_parse float_fmt LATEST name_index name_definition_ref
+            attr_schema_location root_attrs l empty_world = Val w ->
+  RealInvL RT w -> Pending45_4 w (OpLoad m buffer filename strict) = false ->
+  run_op2 RT tab_el tab_at tab_en (check_fn_model dfas) float_parse float_fmt LATEST name_index name_definition_ref
+          attr_schema_location root_attrs (OpLoad m buffer filename strict) w = Val (OK (VLoad f ws), w') ->
+  DocSide RT (check_fn_model dfas) w' ->
+  (Inv04 RT (check_fn_model dfas) w /\ Inv05 RT w /\ RX RT w) /\
+  TreeFactsL w' /\ Inv04 RT (check_fn_model dfas) w' /\ Inv05S RT w'.
+Proof. exact IndexProofsOp2Real.C45_history2_then_load_rt. Qed.
